@@ -194,6 +194,42 @@ def load_onto_existing(sym, cell2, with_unified):
                           sym.implies(sym.and_(enforced, same_identity(sym, imgs[x], imgs[y])), sym.same(imgs[x].checksums, imgs[y].checksums)))
 
 
+def add_after_load(sym, cell2, with_unified):
+    """a document of any format version is loaded (the manifest is a current one from then on), then an image is added: refused
+    iff it collides with a loaded image"""
+    major = 1
+    minor = sym.int("minor", 0, 2)
+    a = image_dict(sym, 0, with_unified)
+    b = image_dict(sym, 1, with_unified)
+    sym.assume(a["path"] != b["path"])
+    collide = sym.and_(*[sym.same(a[k], b[k]) for k in ["subvariant", "type", "format", "arch", "disc_number"]])
+    differ = sym.not_(sym.same(a["checksums"], b["checksums"]))
+    doc = {
+        "header": {"version": "%d.%d" % (major, minor), "type": "productmd.images"},
+        "payload": {"compose": {"id": "Fedora-20-20131212.0", "type": "production", "date": "20131212", "respin": 0}, "images": {"Server": {"x86_64": [a]}}},
+    }
+    im = Images()
+    try:
+        im.loads(json.dumps(doc))
+    except ValueError:
+        return
+    sym.cover("loaded")
+    new = Image(im)
+    for k, v in b.items():
+        setattr(new, k, dict(v) if isinstance(v, dict) else list(v) if isinstance(v, list) else v)
+    v2, a2 = CELLS[cell2]
+    before = snapshot(im)
+    try:
+        im.add(v2, a2, new)
+        raised = False
+    except ValueError:
+        raised = True
+    sym.cover("added")
+    sym.check("refused-iff-collision-with-a-loaded-image", sym.iff(raised, sym.and_(collide, differ)))
+    if raised:
+        sym.check("refusal-changes-nothing", same_snapshot(snapshot(im), before))
+
+
 def identity_object_vs_dict(sym, unified_choice, drop_defaults):
     """identify_image gives the same identity for an Image and for its serialised dictionary"""
     im = Images()
@@ -211,6 +247,12 @@ def identity_object_vs_dict(sym, unified_choice, drop_defaults):
     sym.check("identity-object-equals-identity-dict", identify_image(img) == identify_image(d))
     sym.check("identity-fields", tuple(identify_image(img)) == (img.subvariant, img.type, img.format, img.arch, img.disc_number,
                                                                   img.unified, img.additional_variants))
+
+
+def _jobs_add_after_load(out):
+    for cell2 in (0, 1, 2):
+        for wu in (False, True):
+            out.append({"harness": "add_after_load", "params": {"cell2": cell2, "with_unified": wu}})
 
 
 def jobs(tier, seed):
@@ -231,6 +273,7 @@ def jobs(tier, seed):
         out.append({"harness": "add_step", "params": {"pre_cells": [0, 1], "new_cell": 2, "unified": [0, 0, 0, 0], "versioned": False, "foreign": fv}})
     for cell2 in (0, 1, 2):
         out.append({"harness": "load_onto_existing", "params": {"cell2": cell2, "with_unified": bool(cell2 % 2)}})
+    _jobs_add_after_load(out)
     for uc in (0, 1, 2, 3):
         for dd in (False, True):
             out.append({"harness": "identity_object_vs_dict", "params": {"unified_choice": uc, "drop_defaults": dd and uc == 0}})
@@ -238,11 +281,12 @@ def jobs(tier, seed):
 
 
 META = {
-    "expected_covers": {"add_step": ["pre-state", "added"], "load_collision": ["loaded"], "load_onto_existing": ["loaded"], "identity_object_vs_dict": ["serialised"]},
+    "expected_covers": {"add_step": ["pre-state", "added"], "load_collision": ["loaded"], "load_onto_existing": ["loaded"], "add_after_load": ["loaded", "added"], "identity_object_vs_dict": ["serialised"]},
     "assumptions": [
         "inductive step: the pre-state is any manifest of 1-2 (thorough: up to 3) images built by add on a current-format manifest, i.e. one that satisfies the invariant; "
         "identity attributes and checksums symbolic (type/format/arch from small tables so that collisions are reachable), cells from a catalogue of three",
         "header version symbolic as two integers 0..3 rendered '%d.%d' (below, at and above 1.1)",
+        "add_after_load: a document of format 1.0 / 1.1 / 1.2 with one image is loaded, then an image is added to one of three cells",
         "JSON text layer replaced by the DocText stub",
     ],
 }
